@@ -38,6 +38,9 @@ type Step struct {
 //	                registered and unregistered hundreds of times per second) from AttachAt until the end of
 //	                the workload, with a heartbeat interval of 1-5 ms (no empty heartbeat messages), so that
 //	                the heartbeat monitor walks the session table continuously
+//	flapping_acker  raw replica living many short lives (new connection, stream, 4-8 goroutines acknowledging
+//	                back to back with the session id, connection closed abruptly after 1-20 ms with acks in
+//	                flight) from AttachAt until the end of the workload
 //	none            no faulty replica (baseline for the latency oracle)
 type Fault struct {
 	Class     string    `json:"class"`
@@ -45,7 +48,8 @@ type Fault struct {
 	TriggerAt int       `json:"trigger_at"` // tcp_*: the proxy misbehaves before this step (>= AttachAt)
 	SleepMs   int       `json:"sleep_ms,omitempty"`
 	Nack      *NackSpec `json:"nack,omitempty"`
-	Storm     int       `json:"storm,omitempty"` // reconnect_storm: goroutines
+	Storm     int       `json:"storm,omitempty"`   // reconnect_storm: goroutines; flapping_acker: acknowledging goroutines per life
+	LifeUs    []int     `json:"life_us,omitempty"` // flapping_acker: cycle of life lengths
 }
 
 // NackSpec parameterises the nack_sender class.
@@ -106,13 +110,13 @@ func genCase(t *rapid.T) Case {
 	var c Case
 	c.Keys = gen.Keys(t, 6, 24)
 	nk := len(c.Keys)
-	classes := []string{"stalled_reader", "stalled_reader", "tcp_stall", "tcp_stall", "tcp_reset", "tcp_reset", "no_ack", "no_ack", "slow_apply", "slow_apply", "tcp_stall_quiet", "tcp_stall_quiet", "nack_sender", "nack_sender", "nack_sender", "nack_sender", "reconnect_storm", "reconnect_storm", "reconnect_storm", "none"}
+	classes := []string{"stalled_reader", "stalled_reader", "tcp_stall", "tcp_stall", "tcp_reset", "tcp_reset", "no_ack", "no_ack", "slow_apply", "slow_apply", "tcp_stall_quiet", "tcp_stall_quiet", "nack_sender", "nack_sender", "nack_sender", "nack_sender", "reconnect_storm", "reconnect_storm", "reconnect_storm", "flapping_acker", "flapping_acker", "flapping_acker", "flapping_acker", "none"}
 	cls := rapid.SampledFrom(classes).Draw(t, "fault")
 	if f := faultFlag[cls]; f != "" && !ev.Flag(f) {
 		ev.R().Exclude(f)
 		// redirect to the classes that are still allowed
 		allowed := []string{"none"}
-		for _, alt := range []string{"tcp_reset", "tcp_reset", "no_ack", "no_ack", "slow_apply", "slow_apply", "tcp_stall", "tcp_stall", "stalled_reader", "stalled_reader", "tcp_stall_quiet", "tcp_stall_quiet", "nack_sender", "nack_sender", "nack_sender", "nack_sender", "reconnect_storm", "reconnect_storm", "reconnect_storm"} {
+		for _, alt := range []string{"tcp_reset", "tcp_reset", "no_ack", "no_ack", "slow_apply", "slow_apply", "tcp_stall", "tcp_stall", "stalled_reader", "stalled_reader", "tcp_stall_quiet", "tcp_stall_quiet", "nack_sender", "nack_sender", "nack_sender", "nack_sender", "reconnect_storm", "reconnect_storm", "reconnect_storm", "flapping_acker", "flapping_acker", "flapping_acker", "flapping_acker"} {
 			if faultFlag[alt] == "" || ev.Flag(faultFlag[alt]) {
 				allowed = append(allowed, alt)
 			}
@@ -205,6 +209,13 @@ func genCase(t *rapid.T) Case {
 	c.HB.IntervalMs = rapid.SampledFrom([]int{100, 200, 500}).Draw(t, "hbint")
 	c.HB.TimeoutMs = rapid.SampledFrom([]int{1000, 1000, 2000}).Draw(t, "hbto")
 	c.HB.SendEmpty = rapid.IntRange(0, 3).Draw(t, "hbempty") != 0
+	if cls == "flapping_acker" {
+		c.Fault.Storm = rapid.IntRange(4, 8).Draw(t, "flap_ackers")
+		n := rapid.IntRange(3, 8).Draw(t, "flap_nlives")
+		for i := 0; i < n; i++ {
+			c.Fault.LifeUs = append(c.Fault.LifeUs, rapid.SampledFrom([]int{1000, 2000, 5000, 10000, 20000}).Draw(t, "flap_life"))
+		}
+	}
 	if cls == "reconnect_storm" {
 		c.Fault.Storm = rapid.IntRange(1, 4).Draw(t, "storm_goroutines")
 		c.HB.IntervalMs = rapid.IntRange(1, 5).Draw(t, "hbint_storm")
